@@ -811,3 +811,7 @@ def run(chk):
     pykka_stage(chk)
     dispatch_stage(chk)
     shutdown_stage(chk)
+    import c18_shared
+
+    c18_shared.no_component_left_running(chk, prop="C18")
+    c18_shared.saved_session_survives_interrupted_start(chk, prop="C18")
